@@ -50,6 +50,12 @@ def cli_failures(cli, d, res):
         res['distribution']['Compile::run on invalid grammar: %s' % ('Err' if q2.returncode != 0 else 'Ok')] += 1
         if q2.returncode == 0:
             out.append(dict(kind='routes', grammar=t, what='build-script helper returned Ok on an invalid grammar'))
+        # what cargo does after a failed build script: run it again, nothing changed – the failure must still be reported
+        q3 = subprocess.run([PVUNIT, 'compile', p, os.path.join(d, 'bad%d.rs' % k), '-', '-'], stdout=subprocess.PIPE, stderr=subprocess.PIPE, text=True, timeout=60)
+        res['evaluations'] += 1
+        res['distribution']['Compile::run again on the same invalid grammar: %s' % ('Err' if q3.returncode != 0 else 'Ok')] += 1
+        if q3.returncode == 0:
+            out.append(dict(kind='routes', grammar=t, what='build-script helper returned Ok on an invalid grammar when run a second time (the failure of the first run is no longer reported)'))
     q = subprocess.run([cli, os.path.join(d, 'does-not-exist.ebnf')], stdout=subprocess.PIPE, stderr=subprocess.PIPE, text=True, timeout=60)
     res['evaluations'] += 1
     if q.returncode == 0:
